@@ -112,6 +112,78 @@ def may_rebind(op: dict) -> bool:
     return False
 
 
+# ---- error contracts of C primitives declared `error_kind=ERR_NEVER` ---------------------------------------------
+# A CallC without error branch may be taken as non-NULL only if the C function cannot return NULL.  Derived from the
+# C sources of the checked tree (mypyc/lib-rt/*.c, *.h): a `PyObject *` function can return NULL if its body contains
+# `return NULL`, or returns the result of a function that can (transitively, depth 4), or of a fallible CPython API call.
+_FALLIBLE_API = None
+_C_TEXT: dict[str, dict[str, str]] = {}
+_C_MEMO: dict[str, dict[str, Any]] = {}
+# can return NULL only when memory is exhausted / a str is not "ready" (impossible since 3.12): accepted as non-failing
+OOM_ONLY_PRIMITIVES = {"CPyStr_Strip", "CPyStr_LStrip", "CPyStr_RStrip", "PyUnicode_Splitlines"}
+# iteration protocol: NULL means "exhausted"; irbuild tests the result wherever exhaustion is possible (then the
+# `tested` rule applies), the only untested use is `next(iter(<TypeVarTuple>))` in PEP 695 class headers
+ITERATION_PROTOCOL_PRIMITIVES = {"PyIter_Next", "CPyIter_Next", "CPyIter_Send"}
+
+
+def c_can_return_null(name: str, repo: str | None = None, depth: int = 0) -> str | None:
+    """Why the C function `name` can return NULL (None: no way found)."""
+    import glob
+    import os
+    import re
+    global _FALLIBLE_API
+    if repo is None:
+        try:
+            from harness.vlib.core import REPO as repo          # type: ignore[no-redef]
+        except Exception:
+            repo = os.environ.get("VERIF_REPO", "/repo")
+    if _FALLIBLE_API is None:
+        _FALLIBLE_API = re.compile(
+            r"^(PyObject_(?!GC|Init|New\b)\w+|PyNumber_\w+|PySequence_\w+|PyMapping_\w+|PyDict_GetItemWithError|PyDict_GetItemRef|"
+            r"PyIter_Next|PyImport_Import\w*|PyUnicode_(Join|Format|Split|RSplit|Splitlines|Replace|Concat|FromFormat|AsUTF8\w*|"
+            r"Decode\w*|AsEncodedString)|PyLong_As\w+|PyTuple_GetSlice|PyList_GetSlice|_PyObject_\w+|PyEval_\w+|PyType_\w+)$")
+    text = _C_TEXT.get(repo)
+    if text is None:
+        text = {f: open(f, errors="replace").read() for f in sorted(glob.glob(os.path.join(repo, "mypyc", "lib-rt", "*.[ch]")))}
+        _C_TEXT[repo] = text
+    memo = _C_MEMO.setdefault(repo, {})
+    if name in memo:
+        return memo[name]
+    memo[name] = None
+    pat = re.compile(r"^((?:static\s+|inline\s+|CPy_NOINLINE\s+)*[A-Za-z_][\w\s]*?[\s\*]+)\b" + re.escape(name) + r"\s*\(([^;{}]*)\)\s*\{", re.M)
+    found = None
+    for t in text.values():
+        m = pat.search(t)
+        if m:
+            i, d = m.end(), 1
+            while i < len(t) and d:
+                d += (t[i] == "{") - (t[i] == "}")
+                i += 1
+            found = (m.group(1), t[m.end():i])
+            break
+    if found is None:
+        memo[name] = ("fallible C-API call " + name) if _FALLIBLE_API.match(name) else None
+        return memo[name]
+    rtype, body = found
+    if "*" not in rtype:
+        return None
+    body = re.sub(r"//[^\n]*", "", re.sub(r"/\*.*?\*/", "", body, flags=re.S))
+    why = None
+    for r in re.findall(r"return\s+([^;]+);", body):
+        r = r.strip()
+        if r in ("NULL", "0"):
+            why = "`return NULL`"
+            break
+        m = re.match(r"^\(?\s*(\w+)\s*\(", r)
+        if m and depth < 4:
+            w = c_can_return_null(m.group(1), repo, depth + 1)
+            if w:
+                why = f"returns {m.group(1)}(): {w}"
+                break
+    memo[name] = why
+    return why
+
+
 class Unmodelled(Exception):
     pass
 
@@ -240,7 +312,8 @@ def flatten(fd: dict) -> Micro:
     for b in fd["blocks"]:
         for op in b["ops"]:
             d = op.get("dest")
-            if d in var and op.get("borrowed") and op["op"] in KEPT_BY_SOURCE_OPS:
+            if d in var and op.get("borrowed") and op["op"] in KEPT_BY_SOURCE_OPS \
+                    and op.get("function") not in NON_SLOT_BORROW_CALLC:
                 srcs = [x for x in op["srcs"] if x in var]
                 if srcs:
                     borrow_src[d] = srcs
@@ -445,6 +518,14 @@ def flatten(fd: dict) -> Micro:
                                 # the slot is non-NULL (not always initialised, or deletable)
                                 maybe = True
                                 idiom("getattr-nonfailing-without-guarantee")
+                            elif c == "CallC" and op["error_kind"] == ERR_NEVER and not maybe and d not in tested \
+                                    and op["function"] not in OOM_ONLY_PRIMITIVES \
+                                    and op["function"] not in ITERATION_PROTOCOL_PRIMITIVES:
+                                why = c_can_return_null(op["function"])
+                                if why:
+                                    # declared never-failing (no error branch follows) but the C function can return NULL
+                                    maybe = True
+                                    idiom("never-failing-primitive-can-return-null:" + op["function"])
                             takeover = False
                             if c == "LoadMem" and op["borrowed"]:
                                 # `old = borrow *p; dec_ref old; … *p = new` (irbuild/vec.py vec_set_item): the
@@ -931,7 +1012,10 @@ def describe_failure(m: Micro, fd: dict, bad: tuple) -> dict:
             for op in b["ops"]:
                 if op.get("dest") == x["id"] and op["op"] not in ("Assign",):
                     out["var_def"] = {"op": op["op"], "function": op.get("function"),
-                                      "args": [_operand_desc(fd, s) for s in op["srcs"]]}
+                                      "args": [_operand_desc(fd, s) for s in op["srcs"]],
+                                      "error_kind": op.get("error_kind"), "borrowed": op.get("borrowed")}
+                    if op["op"] == "CallC" and op.get("error_kind") == ERR_NEVER:
+                        out["var_def"]["c_can_return_null"] = c_can_return_null(op.get("function") or "")
                     if op["op"] == "GetAttr":
                         out["var_def"].update({k: op.get(k) for k in ("attr", "class_name", "error_kind", "borrowed",
                                                                       "attr_always_initialized", "attr_deletable",
